@@ -9,7 +9,7 @@
    The checkers do not trust the hull / noding functions they call: whatever those return is validated by the clauses
    (is_hull_cycleb, boundary_ok), so an error there can only make a check fail, never pass. *)
 From Coq Require Import ZArith List Bool.
-From GeosV Require Import Lib.KernelDefs.
+From GeosV.Lib Require Import KernelDefs.
 Import ListNotations.
 Local Open Scope Z_scope.
 
